@@ -40,11 +40,11 @@ def norm_key(s: str) -> str:
 
 
 class Ctx:
-    def __init__(self, prop: str, tier: str = 'quick', repo_root: Optional[str] = None):
+    def __init__(self, prop: str, tier: str = 'quick', repo_root: Optional[str] = None, overlay=None):
         self.prop = prop
         self.tier = tier
         self.t0 = time.time()
-        self.repo = Repo(repo_root or REPO_ROOT)
+        self.repo = Repo(repo_root or REPO_ROOT, overlay=overlay)
         self.findings: List[Finding] = []
         self.obligations = 0
         self.discharged = 0
@@ -56,6 +56,10 @@ class Ctx:
         self.assumptions: List[str] = []
         self.consulted: set = set()
         self._fn_seen = set()
+        self.touched: List[FuncInfo] = []
+        self.primary: List[FuncInfo] = []
+        self._primary_seen = set()
+        self.selftest: Optional[dict] = None
 
     # -- bookkeeping -------------------------------------------------------------
     def ob(self, rule: str, ok: bool, n: int = 1):
@@ -78,15 +82,19 @@ class Ctx:
             raise AnalysisError('%s: only %d %s found, %d confirmed by hand on the reference tree - '
                                 'the rule would pass vacuously' % (rule, n, what, floor))
 
-    def touch(self, f: FuncInfo):
+    def touch(self, f: FuncInfo, primary: bool = False):
         self.consulted.add(f.module.relpath)
+        if primary and f.node not in self._primary_seen:
+            self._primary_seen.add(f.node)
+            self.primary.append(f)
         if f.node not in self._fn_seen:
             self._fn_seen.add(f.node)
+            self.touched.append(f)
             self.stats['functions_analysed'] += 1
 
     # -- the workhorse: code table vs reference table ------------------------------
     def paths(self, cls: Optional[ClassInfo], f: FuncInfo, opts: Optional[Options] = None) -> List[Path]:
-        self.touch(f)
+        self.touch(f, primary=True)
         ps, ex = function_paths(self.repo, cls, f, opts)
         self.stats['paths_enumerated'] += ex.npaths
         return ps
@@ -106,6 +114,7 @@ class Ctx:
         opts = opts or Options(integer_dims=view.integer_dims)
         code = self.paths(ctx, f, opts)
         spec_f = parse_spec_function(spec_src, f.module, f.cls)
+        self._compare_signatures(rule, f, spec_f, ctx, cls, own)
         spec_paths, ex2 = function_paths(repo, ctx, spec_f, opts)
         if region is not None:
             cl, sl = loops_of(code), loops_of(spec_paths)
@@ -130,6 +139,26 @@ class Ctx:
                 self.violation(rule, construct, m.key(), '%s: %s' % (what or 'behaviour differs from the property', m.diff),
                                where='%s:%d' % (f.module.relpath, m.line), detail=describe(m))
         return mism
+
+    def _compare_signatures(self, rule, f, spec_f, ctx, cls, own):
+        """number of parameters and default values (canonical terms) agree with the reference"""
+        from .terms import term as _t
+
+        def sig(fn):
+            a = fn.args
+            pos = a.posonlyargs + a.args
+            d = [None] * (len(pos) - len(a.defaults)) + list(a.defaults)
+            out = [(_t(x) if x is not None else None) for x in d]
+            kw = [(k.arg, _t(v) if v is not None else None) for k, v in zip(a.kwonlyargs, a.kw_defaults)]
+            return out, kw, bool(a.vararg), bool(a.kwarg)
+        a, b = sig(f.node), sig(spec_f.node)
+        ok = a == b
+        self.ob(rule, ok)
+        if not ok:
+            construct = '%s::%s' % (f.module.relpath, f.qualname)
+            self.violation(rule, construct, 'signature defaults %s, reference %s' % (a[0], b[0]),
+                           '%s: parameter list / default values differ from the reference (code %s, reference %s)' % (f.qualname, a[0], b[0]),
+                           where=f.where)
 
     # -- finishing -------------------------------------------------------------------
     def finish(self, explanation: str, level_note: str = '') -> int:
@@ -192,6 +221,8 @@ class Ctx:
             'violations': len(new),
         }
         ev['coverage'].update(self.stats)
+        if self.selftest is not None:
+            ev['coverage']['selftest'] = self.selftest
         os.makedirs(EVID_DIR, exist_ok=True)
         with open(os.path.join(EVID_DIR, self.prop + '.json'), 'w') as fh:
             json.dump(ev, fh, indent=1, default=str)
@@ -217,6 +248,9 @@ def run_check(prop: str, tier: str, fn: Callable[[Ctx], str]) -> int:
     try:
         ctx = Ctx(prop, tier)
         explanation = fn(ctx)
+        if tier == 'thorough':
+            from . import selftest
+            ctx.selftest = selftest.run_for(prop, ctx)
         return ctx.finish(explanation)
     except AnalysisError as e:
         print('ANALYSIS-ERROR property=%s %s' % (prop, e))
